@@ -15,7 +15,8 @@ PARSE = 'biom/parse.py'
 SINK_RULE = {'CTOR': 'AX-CTOR', 'KERNEL': 'AX-KERNEL', 'STORE': 'AX-STORE',
              'IDAPI': 'AX-IDAPI', 'MATOP': 'AX-MATOP', 'SHAPE': 'AX-SHAPE',
              'OWNER': 'AX-OWNER', 'REINDEX': 'OR-REINDEX', 'RET': 'AX-RET',
-             'TRUTH': 'AX-TRUTH', 'MAJOR': 'AX-MAJOR', 'DDICT': 'EF-DDICT'}
+             'TRUTH': 'AX-TRUTH', 'MAJOR': 'AX-MAJOR', 'DDICT': 'EF-DDICT',
+             'ORDER': 'AX-ORDER'}
 
 MODE_PARAMS = {'one_to_many': [True, False], 'by_id': [True, False],
                'dense': [True, False]}
@@ -452,6 +453,10 @@ RULE_TEXT = {
                 'table and complementary axes',
     'AX-RET': 'axis accessors return values of the axis they were asked for',
     'AX-PRIM': rule_axis_primitives.__doc__,
+    'AX-ORDER': 'positions are only used to index collections laid out in '
+                'the order the positions refer to; ids and metadata placed '
+                'in a constructor slot are laid out in the order of the '
+                'matrix they label',
     'AX-TRUTH': 'a position on an axis (which may be 0) is never used as a '
                 'truth value',
     'AX-MAJOR': 'compressed-storage arrays (indptr / indices) of a table\'s '
